@@ -198,12 +198,12 @@ def expandSequences (p : Program) (kept : List String) (out : List Instr) : Prog
                                 body := [], used := [] }) out
 
 /-- `Program::simplify` (874-914) given the expansion output and the sets of frame / waveform /
-extern keys that were found to be used. Note 901: the frames are taken from `self`, not from the
-expanded program. -/
+extern keys that were found to be used. Since fix 768d37f the frames are those of the EXPANDED
+program (expansion may hoist DEFFRAMEs out of calibration bodies), filtered in place (901-903). -/
 def simplify (p : Program) (out : List Instr) (keptF keptW keptE : List String) : Program :=
   let e := expandCalibrations p out
   let e := rebuildUsed { e with cals := [], mcals := [] }   -- 879-881
-  { e with frames := p.frames.filter (fun f => keptF.contains f.key)            -- 901
+  { e with frames := e.frames.filter (fun f => keptF.contains f.key)            -- 901-903
            waveforms := e.waveforms.filter (fun w => keptW.contains w.key)     -- 902-904
            externs := e.externs.filter (fun x => keptE.contains x.key) }       -- 905-911
 
